@@ -321,9 +321,16 @@ def gen_quoted(rng):
     return "".join(rng.choice(Q_ALPHA) for _ in range(n))
 
 
+CLEAN = [False]     # generator mode: raw (unquoted) atoms restricted to CSS tokens
+
+
 def gen_raw(rng):
     if rng.random() < 0.7:
         return rng.choice(RAW_TOKENS)
+    if CLEAN[0]:
+        # identifiers separated by spaces / a newline followed by spaces (exercises visit_unquoted_string)
+        ws = [rng.choice(["a", "b-c", "é", "x1", "_u"]) for _ in range(rng.choice([1, 2, 3]))]
+        return rng.choice([" ", "\n", "\n   ", "  "]).join(ws)
     n = rng.choice([0, 1, 2, 3, 5, 8])
     s = "".join(rng.choice(RAW_ALPHA) for _ in range(n))
     return s
@@ -454,7 +461,8 @@ def gen_at(rng, depth=0, in_media=False):
             gen_at_children(rng, depth, in_media, True))
 
 
-def gen_nodes(rng, ascii_only=False):
+def gen_nodes(rng, ascii_only=False, clean=False):
+    CLEAN[0] = clean
     n = rng.choice([0, 1, 1, 2, 2, 3, 3, 4, 5, 6])
     nodes = []
     for _ in range(n):
@@ -610,12 +618,15 @@ _tok = re.compile(
       |(?P<other>.)""", re.X | re.S)
 
 CANON_RULES = [
-    "whitespace runs collapse to one space; whitespace next to , / ( ) > + ~ { } : ; and at the ends is dropped",
+    "whitespace runs collapse to one space; dropped at the ends, after '(' and before ')', around ',' '/' '*' in values "
+    "and around ',' '>' '+' '~' ':' in preludes (selectors, at-rule parameters); never around '+'/'-' in values",
     "a number token drops a leading '+', leading zeros of the integer part ('0.5' = '.5') and trailing fraction zeros",
     "#rgb/#rgba/#rrggbb/#rrggbbaa and CSS colour keywords used as a whole value token become rgba(r,g,b,a)",
     "comments other than /*! … */ are dropped; the last declaration's semicolon is optional",
     "@charset rule / BOM at the start is dropped",
-    "strings are compared verbatim",
+    "a string token is compared by its value (CSS escapes decoded, either quote kind)",
+    "rgb()/rgba() with integer channels and #rrggbbaa compare by channels with alpha rounded to 5 decimals",
+    "whitespace inside kept comments collapses (re-indentation of comment lines is not meaning)",
 ]
 
 
@@ -644,27 +655,60 @@ def _hash_rgba(h):
     return tuple(int(h[i:i + 2], 16) for i in (0, 2, 4, 6))
 
 
-def canon_text(s, colors=True):
+_esc = re.compile(r"\\(?:([0-9a-fA-F]{1,6})[ \t\n]?|(\n)|(.))", re.S)
+
+
+def string_value(tok):
+    """The value of a CSS string token (escapes decoded, quote kind forgotten)."""
+    body = tok[1:-1]
+
+    def rep(m):
+        if m.group(1):
+            n = int(m.group(1), 16)
+            return chr(n) if 0 < n < 0x110000 and not (0xD800 <= n < 0xE000) else "\ufffd"
+        if m.group(2):
+            return ""
+        return m.group(3)
+    return _esc.sub(rep, body)
+
+
+def canon_string(tok):
+    return json.dumps(string_value(tok), ensure_ascii=False)
+
+
+_rgba_fn = re.compile(r"rgba?\(\s*(\d+)\s*,\s*(\d+)\s*,\s*(\d+)\s*(?:,\s*([0-9.]+)\s*)?\)")
+
+
+def _rgba_str(r, g, b, a):
+    return "rgba(%d,%d,%d,%s)" % (r, g, b, _canon_num("%.5f" % a))
+
+
+def canon_text(s, colors=True, prelude=False):
     """Canonical form of a value / prelude (rules: CANON_RULES)."""
     toks = []
     prev_kind = None
+    if colors:
+        s = _rgba_fn.sub(lambda m: _rgba_str(int(m.group(1)), int(m.group(2)), int(m.group(3)),
+                                             float(m.group(4)) if m.group(4) else 1.0).replace("rgba(", "rgba\x00("), s)
     ms = list(_tok.finditer(s))
     for i, m in enumerate(ms):
         k = m.lastgroup
         t = m.group()
         if k == "ws":
             toks.append(" ")
+        elif k == "str":
+            toks.append(canon_string(t))
         elif k == "num":
             toks.append(_canon_num(t))
         elif k == "hash" and colors:
             c = _hash_rgba(t)
-            toks.append("rgba(%d,%d,%d,%d)" % c if c else t)
+            toks.append(_rgba_str(c[0], c[1], c[2], c[3] / 255) if c else t)
         elif k == "ident" and colors:
             nxt = ms[i + 1].group() if i + 1 < len(ms) else ""
             prv = ms[i - 1].group() if i else ""
             c = named_colors().get(t.lower())
             if c and nxt != "(" and prv not in (".", "#", "-", "@", ":", "%", "$") :
-                toks.append("rgba(%d,%d,%d,%d)" % c)
+                toks.append(_rgba_str(c[0], c[1], c[2], c[3] / 255))
             else:
                 toks.append(t)
         else:
@@ -676,8 +720,10 @@ def canon_text(s, colors=True):
     # so protect them first)
     parts = re.split(r"""("(?:[^"\\]|\\.)*"|'(?:[^'\\]|\\.)*')""", out)
     for i in range(0, len(parts), 2):
-        parts[i] = re.sub(r" ?([,/()>+~{}:;*]) ?", r"\1", parts[i])
-    return "".join(parts).strip()
+        parts[i] = re.sub(r" ?([,>+~:]) ?" if prelude else r" ?([,/*]) ?", r"\1", parts[i])
+        parts[i] = re.sub(r"\( ", "(", parts[i])
+        parts[i] = re.sub(r" \)", ")", parts[i])
+    return "".join(parts).strip().replace("rgba\x00(", "rgba(")
 
 
 def canon_nodes(nodes, colors=True, keep_all_comments=False):
@@ -686,16 +732,16 @@ def canon_nodes(nodes, colors=True, keep_all_comments=False):
         t = nd["type"]
         if t == "comment":
             if keep_all_comments or nd["text"].startswith("/*!"):
-                out.append(("comment", nd["text"]))
+                out.append(("comment", re.sub(r"\s+", " ", nd["text"])))
         elif t == "decl":
             custom = nd["name"].startswith("--")
             out.append(("decl", nd["name"], nd["value"].strip() if custom else canon_text(nd["value"], colors)))
         elif t == "stmt":
             if nd["text"].lower().startswith("@charset"):
                 continue
-            out.append(("stmt", canon_text(nd["text"], False)))
+            out.append(("stmt", canon_text(nd["text"], False, True)))
         else:
-            out.append(("rule", canon_text(nd["prelude"], False), canon_nodes(nd["children"], colors, keep_all_comments)))
+            out.append(("rule", canon_text(nd["prelude"], False, True), canon_nodes(nd["children"], colors, keep_all_comments)))
     return out
 
 
